@@ -575,6 +575,14 @@ def solve_configs():
     # tolerance: exits taken inside geometry / regression steps hand their point over through other save sites
     C["nsamples-budget-sweep"] = lambda rng: (lambda k: (noisy(rng, 1e-3), x0r(), dict(maxfun=int(rng.integers(20, 80)), objfun_has_noise=True,
                                                                                        nsamples=lambda d, r, i, kk, k=k: k, user_params=diag(rng, 0.3))))(int(rng.integers(2, 4)))
+    # results that come from the point saved by an exit taken INSIDE a geometry step (budget ending in the middle of that point's
+    # samples): (samples per point, maxfun) pairs found with the tracer on a deterministic problem — the exit route matters, the
+    # numbers are not magic (they drift harmlessly if the trajectory ever changes)
+    _smooth3 = lambda x: np.array([x[0] - 1.0, x[1] - 2.0, x[2] - 3.0, 0.1 * (x[0] * x[1] + x[2] ** 2)])
+    C["geometry-step-exit-is-the-result"] = lambda rng: (lambda p: (_smooth3, np.array([0.3, 0.2, 0.1]),
+                                                                    dict(maxfun=p[1], nsamples=lambda d, r, i, k, ns=p[0]: ns,
+                                                                         user_params=diag(rng, 0.3))))(
+        [(2, 43), (2, 75), (3, 55), (3, 56)][int(rng.integers(4))])
     C["regression-extra-steps-loose-tol"] = lambda rng: (_rosen, x0r(), dict(npt=5, user_params=diag(rng, 0.3, {"regression.num_extra_steps": 2,
                                                                                                           "model.abs_tol": float(rng.choice([0.5, 0.8, 2.0]))})))
     return C
